@@ -45,6 +45,8 @@ class VLoop(asyncio.SelectorEventLoop):
 
 
 def run_real(case: dict) -> list[str]:
+    if case.get("kind") == "aiterbuf":
+        return run_buffered(case)
     from easynetwork.clients.abc import AbstractAsyncNetworkClient
     from easynetwork.lowlevel.api_async.backend._asyncio.backend import AsyncIOBackend
 
@@ -122,6 +124,8 @@ def run_real(case: dict) -> list[str]:
 
 
 def oracle(case: dict, real: list[str]) -> str | None:
+    if case.get("kind") == "aiterbuf":
+        return oracle_buffered(case, real)
     T = case["T"]
     rem = T
     spent = 0
@@ -144,7 +148,8 @@ def oracle(case: dict, real: list[str]) -> str | None:
         else:   # stop
             if rem is None:
                 return "iteration stopped by a timeout although there is no timeout"
-            if d < rem:
+            if d < rem or d == 0:
+                # d == 0: the packet is obtainable without suspending at all: also a zero / exhausted budget must hand it out
                 return f"iteration stopped although packet {k} would have arrived after {d} <= remaining budget {rem}"
             if took != rem:
                 return f"TimeoutError after {took} ticks with {rem} of the budget left"
@@ -161,3 +166,448 @@ def generate(rng, tier: str, boost: int):
         T = rng.choice([None, 0, 0, 1, 2, 3, 5, 8, 13])
         calls = [[rng.choice([0, 0, 1, 4, 9]), rng.choice([0, 0, 1, 1, 2, 3, 5])] for _ in range(rng.randint(1, 6))]
         yield {"kind": "aiter", "T": T, "calls": calls}
+    yield from generate_buffered(rng, tier, boost)
+
+
+# ----------------------------------------------------------------------------------------------------------------
+# kind "aiterbuf": the asynchronous iterator over a client that already HOLDS packets (zero / default / exhausted budget)
+# ----------------------------------------------------------------------------------------------------------------
+"""
+case = {"kind": "aiterbuf", "client": "tcp" | "mem", "path": "copy" | "buffered", "ops": [...]}
+   client "tcp"  the real AsyncTCPNetworkClient (asyncio backend) on a loopback TCP connection, max_recv_size 16384
+          "mem"  a minimal in-memory AbstractAsyncNetworkClient subclass over a queue (recv_packet() returns a queued packet
+                 without suspending) - the documented way to write one's own client
+   ops    ["send", hex]        the peer writes these bytes NOW (one segment; the op waits until the event loop has taken them
+                               out of the kernel: they sit in the adapter's protocol buffer / the queue)
+          ["later", d, hex]    the peer writes these bytes d virtual ticks from now
+          ["recv"]             await client.recv_packet()              (watchdog: 1000 virtual ticks)
+          ["iter", T]          [p async for p in client.iter_received_packets(timeout=T)]; T = ticks | None | "default"
+                               (no argument: documented default 0)     (watchdog: 1000 virtual ticks)
+   packets are text lines; a trailing digit is the PROCESSING time (virtual ticks) the packet costs when it is deserialised
+   (tcp: in serializer.deserialize(); mem: in recv_packet(), without suspending) - that is how a budget runs down to exactly 0
+   without a timer tie.
+
+Virtual time (VLoopIO): the clock jumps to the next timer only when neither a callback nor a DESCRIPTOR is ready.
+
+Lines:  op <i> | pkt <text> <ticks spent in the call> | stop <ticks> | cut | exc <Name>
+
+Oracle (reference, from the property): what is obtainable WITHOUT waiting must be handed out whatever the budget (also 0 /
+exhausted): a complete packet already in the client's buffer (taken out of the transport in the same read as a delivered
+one; mem: queued) is never answered by a time-out.  A packet that needs one suspension but no time (bytes in the adapter's
+protocol buffer) must be handed out when budget is left, may be either way with a zero budget.  A packet arriving after w
+ticks: w < remaining -> returned after w (+ processing); w > remaining -> stop after exactly `remaining`; w == remaining: tie.
+Everything in order, exactly once; total waiting of one iterator <= T.
+"""
+
+
+class VLoopIO(VLoop):
+    """as VLoop, but I/O first: virtual time only moves when no descriptor is ready either"""
+
+    def _run_once(self) -> None:  # type: ignore[override]
+        if not self._ready and self._scheduled and self._selector.select(0):  # type: ignore[attr-defined]
+            asyncio.SelectorEventLoop._run_once(self)  # type: ignore[attr-defined]
+            return
+        super()._run_once()
+
+
+def _proc_of(text: str) -> int:
+    return int(text[-1]) if text and text[-1].isdigit() else 0
+
+
+_WATCHDOG = 1000
+
+
+def run_buffered(case: dict) -> list[str]:
+    import collections
+    import fcntl
+    import os
+    import select
+    import socket
+    import struct
+    import termios
+
+    from easynetwork.clients.abc import AbstractAsyncNetworkClient
+    from easynetwork.clients.async_tcp import AsyncTCPNetworkClient
+    from easynetwork.lowlevel.api_async.backend._asyncio.backend import AsyncIOBackend
+    from easynetwork.protocol import BufferedStreamProtocol, StreamProtocol
+    from easynetwork.serializers.base_stream import AutoSeparatedPacketSerializer
+
+    loop = VLoopIO()
+    lines: list[str] = []
+    backend = AsyncIOBackend()
+
+    class ProcLine(AutoSeparatedPacketSerializer):
+        """text lines; deserialising a packet whose text ends with a digit d costs d virtual ticks (no suspension)"""
+
+        def __init__(self) -> None:
+            super().__init__(separator=b"\n", limit=65536)
+
+        def serialize(self, packet):  # type: ignore[override]
+            return str(packet).encode()
+
+        def deserialize(self, data):  # type: ignore[override]
+            pkt = bytes(data).decode()
+            loop._vt += _proc_of(pkt)
+            return pkt
+
+    class QueueClient(AbstractAsyncNetworkClient):
+        def __init__(self) -> None:
+            self.queue: collections.deque[str] = collections.deque()
+            self.buf = b""
+            self.available = asyncio.Event()
+
+        def feed(self, data: bytes) -> None:
+            self.buf += data
+            *done, self.buf = self.buf.split(b"\n")
+            self.queue.extend(d.decode() for d in done)
+            if self.queue:
+                self.available.set()
+
+        def is_connected(self) -> bool:
+            return True
+
+        async def wait_connected(self) -> None:
+            return None
+
+        def is_closing(self) -> bool:
+            return False
+
+        async def aclose(self) -> None:
+            return None
+
+        async def send_packet(self, packet: Any) -> None:
+            return None
+
+        async def recv_packet(self) -> Any:
+            while not self.queue:
+                self.available.clear()
+                await self.available.wait()
+            pkt = self.queue.popleft()
+            loop._vt += _proc_of(pkt)
+            return pkt
+
+        def get_local_address(self):
+            raise NotImplementedError
+
+        def get_remote_address(self):
+            raise NotImplementedError
+
+        def backend(self):
+            return backend
+
+    tcp = case["client"] == "tcp"
+    peer = None
+    dupfd = -1
+    closers: list = []
+
+    def fionread() -> int:
+        return struct.unpack("i", fcntl.ioctl(dupfd, termios.FIONREAD, b"\0\0\0\0"))[0]
+
+    async def main() -> None:
+        nonlocal peer, dupfd
+        if tcp:
+            lst = socket.create_server(("127.0.0.1", 0))
+            sock = socket.create_connection(lst.getsockname())
+            peer, _ = lst.accept()
+            lst.close()
+            closers.append(peer.close)
+            peer.setsockopt(socket.IPPROTO_TCP, socket.TCP_NODELAY, 1)
+            dupfd = os.dup(sock.fileno())
+            closers.append(lambda: os.close(dupfd))
+            ser = ProcLine()
+            proto = BufferedStreamProtocol(ser) if case.get("path") == "buffered" else StreamProtocol(ser)
+            client: Any = AsyncTCPNetworkClient(sock, proto, backend, max_recv_size=16384)
+            await client.wait_connected()
+        else:
+            client = QueueClient()
+
+        def arrive(data: bytes) -> None:
+            if not tcp:
+                client.feed(data)
+                return
+            peer.sendall(data)
+            p = select.poll()
+            p.register(dupfd, select.POLLIN)
+            if not p.poll(5000):
+                lines.append("harness-arrival-not-seen")
+
+        pending: list[tuple[float, int, bytes]] = []
+        pending_seq: list[int] = []
+
+        def arrive_due() -> None:
+            while pending and pending[0][0] <= loop.time():
+                arrive(pending.pop(0)[2])
+
+        try:
+            for i, op in enumerate(case["ops"]):
+                lines.append(f"op {i}")
+                if op[0] == "send":
+                    arrive(bytes.fromhex(op[1]))
+                    if tcp:
+                        for _ in range(200):
+                            if fionread() == 0:
+                                break
+                            await asyncio.sleep(0)
+                        else:
+                            lines.append("harness-bytes-left-in-kernel")
+                elif op[0] == "later":
+                    # timers with the same deadline fire in heap order, not in scheduling order: the harness keeps its own
+                    # queue so that segments due at the same tick are written in (time, scheduling) order
+                    pending.append((loop.time() + op[1], len(pending_seq), bytes.fromhex(op[2])))
+                    pending_seq.append(0)
+                    pending.sort(key=lambda e: e[:2])
+                    loop.call_later(op[1], arrive_due)
+                elif op[0] == "recv":
+                    t0 = loop.time()
+                    try:
+                        pkt = await asyncio.wait_for(client.recv_packet(), _WATCHDOG)
+                        lines.append(f"pkt {pkt} {int(loop.time() - t0)}")
+                    except TimeoutError:
+                        lines.append("cut")
+                    except Exception as e:  # noqa: BLE001
+                        lines.append(f"exc {type(e).__name__}")
+                elif op[0] == "iter":
+                    T = op[1]
+
+                    async def drain() -> None:
+                        if T == "default":
+                            it = client.iter_received_packets()
+                        else:
+                            it = client.iter_received_packets(timeout=None if T is None else float(T))
+                        while True:
+                            t0 = loop.time()
+                            try:
+                                pkt = await anext(it)
+                            except StopAsyncIteration:
+                                lines.append(f"stop {int(loop.time() - t0)}")
+                                return
+                            lines.append(f"pkt {pkt} {int(loop.time() - t0)}")
+
+                    try:
+                        await asyncio.wait_for(drain(), _WATCHDOG)
+                    except TimeoutError:
+                        lines.append("cut")
+                    except Exception as e:  # noqa: BLE001
+                        lines.append(f"exc {type(e).__name__}")
+                else:
+                    raise AssertionError(op)
+        finally:
+            if tcp:
+                await client.aclose()
+
+    old = time.perf_counter
+    time.perf_counter = loop.time  # type: ignore[assignment]
+    try:
+        asyncio.set_event_loop(loop)
+        loop.run_until_complete(main())
+    finally:
+        time.perf_counter = old  # type: ignore[assignment]
+        asyncio.set_event_loop(None)
+        for c in closers:
+            try:
+                c()
+            except OSError:
+                pass
+        loop.close()
+    return lines
+
+
+def oracle_buffered(case: dict, real: list[str]) -> str | None:
+    for ln in real:
+        if ln.startswith("harness-"):
+            return f"harness problem: {ln}"
+        if ln.startswith("exc "):
+            return f"unexpected exception {ln}"
+    tcp = case["client"] == "tcp"
+    per: dict[int, list[str]] = {}
+    cur = -1
+    for ln in real:
+        if ln.startswith("op "):
+            cur = int(ln.split()[1])
+            per[cur] = []
+        elif cur >= 0:
+            per[cur].append(ln)
+    inf = float("inf")
+
+    class Ref:
+        """reference state: where the bytes sent so far are, as far as the property is concerned"""
+        now = 0
+        cons = b""                             # surely in the client's own buffer: obtainable without suspending
+        near: list[bytes] = []                 # arrived segments that may need ONE suspension (no time) to be obtained
+        future: list[tuple[int, bytes]] = []   # (arrival time, segment), in sending order
+
+    st = Ref()
+    st.near, st.future = [], []
+
+    def first_pkt(b: bytes) -> str | None:
+        return b.split(b"\n", 1)[0].decode() if b"\n" in b else None
+
+    def due() -> None:
+        while st.future and st.future[0][0] <= st.now:
+            st.near.append(st.future.pop(0)[1])
+
+    def expect(rem: float) -> tuple:
+        """('pkt', text, ticks the call takes, 'must' | 'either', class)  or  ('stop',)
+        class A: already in the client's buffer; B: arrived, needs a suspension but no time; C: arrives after a wait"""
+        p = first_pkt(st.cons)
+        if p is not None:
+            return ("pkt", p, _proc_of(p), "must", "A")
+        due()
+        acc = st.cons + b"".join(st.near)
+        p = first_pkt(acc)
+        if p is not None:
+            return ("pkt", p, _proc_of(p), "must" if rem > 0 else "either", "B")
+        for ta, b in st.future:
+            acc += b
+            p = first_pkt(acc)
+            if p is not None:
+                w = ta - st.now
+                if w < rem:
+                    return ("pkt", p, w + _proc_of(p), "must", "C")
+                if w == rem:
+                    return ("pkt", p, w + _proc_of(p), "either", "C")
+                break
+        return ("stop",)
+
+    def take(p: str, cls: str, took: int) -> None:
+        """packet `p` has been handed out by a call that took `took` ticks"""
+        if cls == "C":
+            st.now += took - _proc_of(p)       # the wait
+            due()
+        if cls != "A":
+            # a read took place: it took at least every (atomic) segment up to the one that completes the packet; mem: all
+            while st.near and (not tcp or b"\n" not in st.cons):
+                st.cons += st.near.pop(0)
+        st.cons = st.cons.split(b"\n", 1)[1]
+        st.now += _proc_of(p) if cls == "C" else took
+
+    for i, op in enumerate(case["ops"]):
+        obs = per.get(i)
+        if obs is None:
+            return f"op {i} was never run"
+        if op[0] == "send":
+            b = bytes.fromhex(op[1])
+            if tcp:
+                st.near.append(b)
+            else:
+                st.cons += b"".join(st.near) + b
+                st.near = []
+        elif op[0] == "later":
+            st.future.append((st.now + op[1], bytes.fromhex(op[2])))
+            st.future.sort(key=lambda e: e[0])
+        elif op[0] == "recv":
+            e = expect(_WATCHDOG)
+            if len(obs) != 1:
+                return f"op {i} recv: observed {obs}"
+            if e[0] == "stop":
+                if obs[0] != "cut":
+                    return f"op {i}: recv_packet() -> {obs[0]!r} although no complete packet can have arrived"
+                st.now += _WATCHDOG
+                due()
+                continue
+            if obs[0] == "cut":
+                return f"op {i}: recv_packet() did not return packet {e[1]!r} within {_WATCHDOG} ticks"
+            _, text, took = obs[0].split(" ")
+            if text != e[1]:
+                return f"op {i}: recv_packet() returned {text!r}, the next packet of the stream is {e[1]!r}"
+            if int(took) != e[2]:
+                return f"op {i}: recv_packet() -> {text!r} took {took} ticks, expected {e[2]}"
+            take(text, e[4], int(took))
+        elif op[0] == "iter":
+            T = 0 if op[1] == "default" else op[1]
+            rem: float = inf if T is None else T
+            waited = 0
+            ended = False
+            for ln in obs:
+                if ended:
+                    return f"op {i}: output after the end of the iteration: {ln}"
+                e = expect(rem)
+                if ln == "cut":
+                    if e[0] == "stop" and rem == inf:
+                        st.now += _WATCHDOG
+                        due()
+                        ended = True
+                        continue
+                    return f"op {i}: the iteration neither yielded a packet nor stopped within {_WATCHDOG} ticks (timeout={op[1]})"
+                parts = ln.split(" ")
+                if parts[0] == "pkt":
+                    text, took = parts[1], int(parts[2])
+                    if e[0] == "stop":
+                        return (f"op {i}: iter_received_packets(timeout={op[1]}) yielded {text!r} after {took} ticks although "
+                                f"only {rem} ticks of the budget were left and nothing was obtainable within them")
+                    if text != e[1]:
+                        return f"op {i}: yielded {text!r}, the next packet of the stream is {e[1]!r}"
+                    if took != e[2]:
+                        return f"op {i}: packet {text!r} took {took} ticks, expected {e[2]}"
+                    waited += took - _proc_of(text)
+                    take(text, e[4], took)
+                    rem = max(0, rem - took)
+                else:   # stop
+                    took = int(parts[1])
+                    if e[0] == "pkt" and e[3] == "must":
+                        where = {"A": "is already in the client's buffer (obtainable without waiting, without even suspending)",
+                                 "B": "has already arrived (obtainable without waiting)",
+                                 "C": f"arrives after {e[2] - _proc_of(e[1])} ticks"}[e[4]]
+                        return (f"op {i}: iter_received_packets(timeout={op[1]}) stopped (TimeoutError) with {rem} ticks of its "
+                                f"budget left although packet {e[1]!r} {where}: the operation could complete within the budget")
+                    if rem == inf:
+                        return f"op {i}: iteration stopped by a timeout although there is no timeout"
+                    if took != rem:
+                        return f"op {i}: TimeoutError after {took} ticks with {rem} of the budget left"
+                    waited += took
+                    st.now += took
+                    due()
+                    ended = True
+                if T is not None and waited > T:
+                    return f"op {i}: iterator with timeout {T} waited {waited} ticks in total"
+            if not ended:
+                return f"op {i}: the iteration has no end ({obs[-3:]})"
+    return None
+
+
+def _hex(text_packets: list[str], cut_tail: str = "") -> str:
+    return ("".join(p + "\n" for p in text_packets) + cut_tail).encode().hex()
+
+
+def corpus_buffered() -> list[dict]:
+    cs = []
+    for client, path in (("tcp", "copy"), ("tcp", "buffered"), ("mem", "copy")):
+        base = {"kind": "aiterbuf", "client": client, "path": path}
+        # several packets in ONE chunk, the first taken by recv_packet(), then the iterator with a zero / default budget: B, C
+        for T in (0, "default", None, 3):
+            cs.append({**base, "ops": [["send", _hex(["A", "B", "C"])], ["recv"], ["iter", T] if T is not None else ["iter", 5],
+                                       ["send", _hex(["D"])], ["iter", 2]]})
+        # no recv_packet() first: the iterator itself makes the first read (needs a suspension: either way with a zero budget),
+        # then a second iterator
+        cs.append({**base, "ops": [["send", _hex(["A", "B", "C"])], ["iter", 0], ["iter", "default"], ["iter", 1]]})
+        # a budget that has run down to exactly 0 (processing time of B2), C and D are buffered
+        cs.append({**base, "ops": [["send", _hex(["A", "B2", "C", "D"])], ["recv"], ["iter", 2], ["iter", 1]]})
+        cs.append({**base, "ops": [["send", _hex(["A", "B5", "C", "D"])], ["iter", 3], ["iter", 1]]})
+        # budget used up by waiting for a burst: E arrives with F and G after 2 of 3 ticks, F costs 1: G must still come
+        cs.append({**base, "ops": [["send", _hex(["A"])], ["later", 2, _hex(["E", "F1", "G"])], ["iter", 3], ["iter", 1]]})
+        # an incomplete tail is not a packet: stop, later completed
+        cs.append({**base, "ops": [["send", _hex(["A", "B"], "C")], ["recv"], ["iter", 0], ["send", _hex([""], "")], ["iter", 0], ["iter", 1]]})
+    return cs
+
+
+def generate_buffered(rng, tier: str, boost: int):
+    n = (260 if tier == "quick" else 2600) * min(boost, 2)
+    for _ in range(n):
+        client, path = rng.choice([("tcp", "copy"), ("tcp", "buffered"), ("mem", "copy")])
+        names = iter("ABCDEFGHIJKLMNOPQRSTUVWXYZ" * 2)
+
+        def burst(k: int) -> list[str]:
+            return [next(names) + (str(rng.choice([1, 2, 3])) if rng.random() < 0.2 else "") for _ in range(k)]
+
+        ops: list = [["send", _hex(burst(rng.randint(2, 5)))]]
+        for _ in range(rng.choice([0, 1, 1, 1, 2])):
+            ops.append(["recv"])
+        for _ in range(rng.randint(1, 4)):
+            r = rng.random()
+            if r < 0.25:
+                ops.append(["send", _hex(burst(rng.randint(1, 3)))])
+            elif r < 0.45:
+                ops.append(["later", rng.choice([1, 2, 3, 5]), _hex(burst(rng.randint(1, 3)))])
+            ops.append(["iter", rng.choice([0, 0, "default", 1, 2, 3, 5])])
+        ops.append(["iter", 9])
+        yield {"kind": "aiterbuf", "client": client, "path": path, "ops": ops}
